@@ -8,7 +8,8 @@ package main
 //        => loaded | stale-op | refused …
 //   v <bits> <K> <tag|-> <aux|-> <msg hex> <hdr tags csv|-> <body tags csv|-> <trl tags csv|->
 //        bits  = CheckFieldsOutOfOrder RejectInvalidMessage AllowUnknownMessageFields CheckUserDefinedFields CheckFieldsHaveValues (0/1 each)
-//        K,tag,aux = what the GENERATOR did: `conforming`, or the single defect it planted and where
+//        K,tag,aux = what the GENERATOR did: `conforming`, or the single defect it planted and where (required_missing: aux = top |
+//                    grp | grptail = last field of an entry that is followed by another entry)
 //        hdr/body/trl = the tags the REAL ParseMessageWithDataDictionary put into Header / Body / Trailer (sorted); the model
 //                       validator takes this sectioning as given (the codec model is another family); `stale-op` if it no longer does
 //        => accept | reject <reason> <reftag|-> | parse-error | panic
@@ -531,6 +532,10 @@ func (g *instGen) mutate(in *instance, kind string, app, tr *datadictionary.Data
 		}
 		u := &(*sp)[p.u]
 		u.fields = append(u.fields[:p.f:p.f], u.fields[p.f+1:]...)
+		// the removed member was the last field of its entry and another entry of the same group follows
+		if p.f < len(u.fields) && u.fields[p.f].role == 'd' && u.fields[p.f].depth == f.depth {
+			return planted{kind, f.tag, "grptail"}, true
+		}
 		return planted{kind, f.tag, "grp"}, true
 	case "not_defined_for_type", "not_in_dictionary":
 		var tag int
